@@ -29,6 +29,13 @@ def main():
         vlib.violation(ctx, "build_error.json", {"kind": "harness-does-not-build-against-current-tree", "log": str(e)},
                        no_failing_input=True)
         vlib.finish(ctx, [])
+    except Exception:
+        # the machinery itself could not digest what the current tree produced (e.g. a harness line cut by a crash): the property is no
+        # longer shown to hold; the traceback names the stage
+        import traceback
+        vlib.violation(ctx, "checker_error.json", {"kind": "check-could-not-complete-on-current-tree", "traceback": traceback.format_exc()[-4000:]},
+                       no_failing_input=True)
+        vlib.finish(ctx, [])
 
 
 if __name__ == "__main__":
